@@ -4,6 +4,99 @@ Require Import QV.C15.Model QV.C15.Spec QV.C15.Proofs.
 Import ListNotations.
 Open Scope Z_scope.
 
-Theorem C15_update_keeps_fixed : forall us n m w ch, rep_of (update us (Node (Fixed n) m w ch)) = Fixed n.
-Proof. exact update_fixed_root. Qed.
-Print Assumptions C15_update_keeps_fixed.
+(* the key set of get_volatile_parameters() (any nesting of dict / mapped / joint scopes) is exactly the set of names
+   whose value depends on a volatile parameter through the mappings *)
+Theorem C15_marked_keys : forall s x, mem x (vkeys s) = depends s x.
+Proof. exact vkeys_depends. Qed.
+Print Assumptions C15_marked_keys.
+
+(* instantiation: the program tree (shape, counts, which counts are volatile, their dependency keys) is the one the
+   scope-free specification describes: a count is marked volatile iff its expression depends on a volatile parameter *)
+Theorem C15_marked : forall p vals V, prog_obs (create_program p vals V) = spec_program p vals V.
+Proof. exact create_program_meets_spec. Qed.
+Print Assumptions C15_marked.
+
+(* updating = re-instantiating, one update *)
+Theorem C15_update : forall p vals V us t,
+  keys_in us V = true ->
+  guard_C15_zero_count p vals V = true -> guard_C15_zero_count p (override us vals) V = true ->
+  create_program p vals V = Ok (Some t) ->
+  create_program p (override us vals) V = Ok (Some (update us t)).
+Proof. exact update_is_reinstantiate. Qed.
+Print Assumptions C15_update.
+
+(* ... every sequence of updates *)
+Theorem C15_update_sequence : forall ups p vals V t,
+  guard_C15_zero_count_seq p vals V ups = true ->
+  create_program p vals V = Ok (Some t) ->
+  create_program p (override_all ups vals) V = Ok (Some (update_all ups t)).
+Proof. exact update_sequence_is_reinstantiate. Qed.
+Print Assumptions C15_update_sequence.
+
+(* without the guard the statement is false for the unchanged code (known finding C15-zero-count-dropped) *)
+Theorem C15_update_refuted :
+  exists p vals V us t,
+    keys_in us V = true /\ create_program p vals V = Ok (Some t) /\
+    create_program p (override us vals) V <> Ok (Some (update us t)).
+Proof. exact update_zero_count_refuted. Qed.
+Print Assumptions C15_update_refuted.
+
+(* the hypotheses are satisfiable by a nested, mapped, multiplied template whose counts really change *)
+Theorem C15_update_nonvacuous :
+  guard_C15_zero_count_seq ex_pt [(2%N, 3); (4%N, 1)] [4%N] [[(4%N, 2)]; [(4%N, 5)]] = true /\
+  exists t, create_program ex_pt [(2%N, 3); (4%N, 1)] [4%N] = Ok (Some t) /\
+            obs_of (update_all [[(4%N, 2)]; [(4%N, 5)]] t) <> obs_of t.
+Proof. exact (conj ex_guard ex_changes). Qed.
+Print Assumptions C15_update_nonvacuous.
+
+(* merging keeps volatility, and cleanup (remove empty loops + merge single children) commutes with updates *)
+Theorem C15_merge_keeps_volatile : forall r rc, is_vol (merge_rep r rc) = is_vol r || is_vol rc.
+Proof. exact is_vol_merge_rep. Qed.
+Print Assumptions C15_merge_keeps_volatile.
+
+Theorem C15_cleanup_commutes : forall us t, cleanup (update us t) = update us (cleanup t).
+Proof. exact cleanup_update. Qed.
+Print Assumptions C15_cleanup_commutes.
+
+Theorem C15_cleanup_update : forall ups p vals V t,
+  guard_C15_zero_count_seq p vals V ups = true ->
+  create_program p vals V = Ok (Some t) ->
+  exists t', create_program p (override_all ups vals) V = Ok (Some t') /\
+             cleanup t' = update_all ups (cleanup t).
+Proof. exact cleanup_update_is_reinstantiate. Qed.
+Print Assumptions C15_cleanup_update.
+
+(* the merged count is the product of the counts *)
+Theorem C15_merge_count : forall r rc a b,
+  int_of_rep r = Some a -> int_of_rep rc = Some b ->
+  (match r, rc with Vol _ _, Vol _ _ => False | _, _ => True end) -> 0 <= a -> 0 <= b ->
+  int_of_rep (merge_rep r rc) = Some (a * b).
+Proof. exact merge_rep_count. Qed.
+Print Assumptions C15_merge_count.
+
+Theorem C15_merge_joint_count : forall e s ec sc v1 v2,
+  eval (get_param s) e = Some v1 -> eval (get_param sc) ec = Some v2 ->
+  int_of_rep (merge_rep (Vol e s) (Vol ec sc)) = Some (Z.max 0 (v1 * v2)).
+Proof. exact merge_rep_count_joint. Qed.
+Print Assumptions C15_merge_joint_count.
+
+Theorem C15_merge_joint_dep_keys : forall e s ec sc,
+  intersects (vars e) (vkeys s) = true -> intersects (vars ec) (vkeys sc) = true ->
+  dep_keys (merge_rep (Vol e s) (Vol ec sc)) = Some [JP; JC].
+Proof. exact merge_joint_dep_keys. Qed.
+Print Assumptions C15_merge_joint_dep_keys.
+
+(* two merged volatile counts that are both updated to negative values multiply to a positive count (each alone is
+   clamped to 0) *)
+Theorem C15_merge_joint_refuted :
+  exists r rc a b, int_of_rep r = Some a /\ int_of_rep rc = Some b /\ int_of_rep (merge_rep r rc) <> Some (a * b).
+Proof. exact merge_joint_negative_refuted. Qed.
+Print Assumptions C15_merge_joint_refuted.
+
+(* flatten_and_balance: if no volatile loop had to be unrolled (no VolatileModificationWarning: structure_stable is
+   then a consequence, not a hypothesis) flattening commutes with updates *)
+Theorem C15_flatten_commutes : forall us f d todo l,
+  fab f d todo false = Ok (l, false) ->
+  fab f d (map (update us) todo) false = Ok (map (update us) l, false).
+Proof. exact fab_update. Qed.
+Print Assumptions C15_flatten_commutes.
